@@ -266,3 +266,137 @@ func genViews(g *vlib.G) {
 		return !g.Stopped()
 	})
 }
+
+// loopDir / loopUnd add self loops (any weight) to a simple weighted graph,
+// which cannot hold them itself: From(u) additionally yields u, Edge, Weight,
+// WeightedEdge and HasEdge* answer for (u,u). The path routines accept any
+// graph.Graph, so a user graph type may well have self loops.
+type loopDir struct {
+	ordWDir
+	loops map[int64]float64
+}
+
+type loopUnd struct {
+	ordWUnd
+	loops map[int64]float64
+}
+
+func withLoop(it graph.Nodes, self graph.Node, pos map[int64]int) graph.Nodes {
+	ns := append(graph.NodesOf(it), self)
+	return ordBase{pos: pos}.sorted(fresh(ns))
+}
+
+func (g loopDir) From(id int64) graph.Nodes {
+	if _, ok := g.loops[id]; ok {
+		return withLoop(g.ordWDir.From(id), g.Node(id), g.pos)
+	}
+	return g.ordWDir.From(id)
+}
+func (g loopDir) To(id int64) graph.Nodes {
+	if _, ok := g.loops[id]; ok {
+		return withLoop(g.ordWDir.To(id), g.Node(id), g.pos)
+	}
+	return g.ordWDir.To(id)
+}
+func (g loopDir) loop(x, y int64) (float64, bool) {
+	if x != y {
+		return 0, false
+	}
+	w, ok := g.loops[x]
+	return w, ok
+}
+func (g loopDir) HasEdgeBetween(x, y int64) bool {
+	if _, ok := g.loop(x, y); ok {
+		return true
+	}
+	return g.ordWDir.HasEdgeBetween(x, y)
+}
+func (g loopDir) HasEdgeFromTo(x, y int64) bool {
+	if _, ok := g.loop(x, y); ok {
+		return true
+	}
+	return g.ordWDir.HasEdgeFromTo(x, y)
+}
+func (g loopDir) Edge(x, y int64) graph.Edge {
+	if e := g.WeightedEdge(x, y); e != nil {
+		return e
+	}
+	return nil
+}
+func (g loopDir) WeightedEdge(x, y int64) graph.WeightedEdge {
+	if w, ok := g.loop(x, y); ok {
+		return simple.WeightedEdge{F: g.Node(x), T: g.Node(x), W: w}
+	}
+	return g.ordWDir.WeightedEdge(x, y)
+}
+func (g loopDir) Weight(x, y int64) (float64, bool) {
+	if w, ok := g.loop(x, y); ok {
+		return w, true
+	}
+	return g.ordWDir.Weight(x, y)
+}
+
+func (g loopUnd) From(id int64) graph.Nodes {
+	if _, ok := g.loops[id]; ok {
+		return withLoop(g.ordWUnd.From(id), g.Node(id), g.pos)
+	}
+	return g.ordWUnd.From(id)
+}
+func (g loopUnd) loop(x, y int64) (float64, bool) {
+	if x != y {
+		return 0, false
+	}
+	w, ok := g.loops[x]
+	return w, ok
+}
+func (g loopUnd) HasEdgeBetween(x, y int64) bool {
+	if _, ok := g.loop(x, y); ok {
+		return true
+	}
+	return g.ordWUnd.HasEdgeBetween(x, y)
+}
+func (g loopUnd) Edge(x, y int64) graph.Edge {
+	if e := g.WeightedEdge(x, y); e != nil {
+		return e
+	}
+	return nil
+}
+func (g loopUnd) EdgeBetween(x, y int64) graph.Edge { return g.Edge(x, y) }
+func (g loopUnd) WeightedEdge(x, y int64) graph.WeightedEdge {
+	if w, ok := g.loop(x, y); ok {
+		return simple.WeightedEdge{F: g.Node(x), T: g.Node(x), W: w}
+	}
+	return g.ordWUnd.WeightedEdge(x, y)
+}
+func (g loopUnd) WeightedEdgeBetween(x, y int64) graph.WeightedEdge { return g.WeightedEdge(x, y) }
+func (g loopUnd) Weight(x, y int64) (float64, bool) {
+	if w, ok := g.loop(x, y); ok {
+		return w, true
+	}
+	return g.ordWUnd.Weight(x, y)
+}
+
+var (
+	_ graph.WeightedDirected   = loopDir{}
+	_ graph.WeightedUndirected = loopUnd{}
+)
+
+// buildLoopView builds the simple weighted graph of sp without its self
+// loops behind a wrapper that adds them.
+func buildLoopView(sp *spec, ids []int64, order int) graph.Graph {
+	plain := *sp
+	loops := map[int64]float64{}
+	for i := 0; i < sp.n; i++ {
+		if sp.has[i][i] {
+			loops[ids[i]] = sp.w[i][i]
+			plain.has[i][i] = false
+			plain.w[i][i] = 0
+		}
+	}
+	kind := []int{kSimpleAsc, kSimpleDesc, kSimpleRot}[order]
+	_, gg := build(&plain, ids, kind)
+	if sp.directed {
+		return loopDir{gg.(ordWDir), loops}
+	}
+	return loopUnd{gg.(ordWUnd), loops}
+}
